@@ -144,13 +144,14 @@ Lemma ph_payload_go (s : rstate) body rest :
   ph_payload s (body ++ rest) =
     match handle_frame (s_m s) (s_ffin s) (s_fop s) (unmask Cx s body) (s_comp s) with
     | HErr e => PFail e
-    | HOk ev m' => PDone ev (R RH [] m' (s_ffin s) (s_fop s) [] (s_nfrags s) (s_hmask s) (s_mask s) 0 (s_lflag s) (s_comp s)) rest
+    | HOk ev m' => PDone ev (R RH [] m' (s_ffin s) (s_fop s) []
+                            (if had_fragments (s_nfrags s) (lenN (@nil N)) then 0 else s_nfrags s)
+                            (s_hmask s) (s_mask s) 0 (s_lflag s) (s_comp s)) rest
     end.
 Proof.
   intros FR TR. unfold Ws.ph_payload. cbv zeta. rewrite TR, FR.
   destruct (lenN (body ++ rest) <? lenN body) eqn:E; [rewrite lenN_app in E; lia|].
-  rewrite lenN_to_nat, takeN_exact, dropN_exact. cbn [app].
-  change (lenN (@nil N) =? 0) with true. cbv iota. reflexivity.
+  rewrite lenN_to_nat, takeN_exact, dropN_exact. cbn [app]. reflexivity.
 Qed.
 
 (* ---- one whole frame -------------------------------------------------------------------------------- *)
